@@ -130,6 +130,8 @@ def run(ctx, res):
         cases.append((src, cfg, keep, 'program'))
         for k in feats:
             res.count('feat:' + k)
+    for src, items in gen_lua.word_programs(rng):
+        cases.append((src, rng.choice(['default', 'keepall']), None, 'word-program'))
     seps = [b'', b' ', b'\n', b' --c\n', b'--[[c]]']
     for a in REPS:
         for b in REPS:
